@@ -9,6 +9,7 @@ import os, sys
 sys.path.insert(0, os.path.dirname(os.path.abspath(__file__)))
 import vlib
 import vtree_common as vt
+import c24
 
 LEVEL = "model_checking"
 
@@ -39,11 +40,14 @@ def run(ctx):
         lambda: R.sims("VersionedTree_isims.cfg", "simulate 6 keys, 5 versions, 2 snapshots, depth 40", n_s, 45, procs=min(procs, 3), timeout=3000),
         lambda: R.sims("VersionedTree_isim.cfg", "simulate 300 keys, 8 versions, depth 50", n_l, 55, procs=procs, timeout=3000),
     ]
+    ns, nm = (2, 5) if quick else (8, 16)
+    jobs.append(lambda: c24.families(ctx, R, "VersionedTree_iskel.cfg", "VersionedTree_ifam.cfg", "iavl, 120 keys", ns, nm))
     rs = vt.parallel(jobs)
     edges, redges, sims_s, sims_l = rs[0].traces, rs[1].traces, rs[3], rs[4]
+    members = rs[5][0]
     ctx.cov["edges_emitted"] = len(edges) + len(redges)
     ctx.log("TLC done: %d + %d edges, %d + %d simulated behaviours" % (len(edges), len(redges), len(sims_s), len(sims_l)))
-    proofs = {}
+    proofs, fam = {}, {}
 
     def prove():
         proofs.update(R.drive("VersionedTree_isim.cfg", sims_l, SIM_VARIANTS[:1], mode="proofs", proofs=3, bitflips=0 if quick else 24))
@@ -53,10 +57,13 @@ def run(ctx):
         lambda: R.drive("VersionedTree_isims.cfg", sims_s, SIM_VARIANTS, hashes=True),
         lambda: R.drive("VersionedTree_isim.cfg", sims_l, SIM_VARIANTS, hashes=True),
         prove,
+        # root hash = function of the history: families of behaviours sharing the hash-relevant script (as C24)
+        lambda: fam.update(R.drive("VersionedTree_ifam.cfg", members, SIM_VARIANTS, mode="family", svsample=2)),
     ])
     R.finish()
     for k in ("tree_states_probed", "membership_proofs", "nonmembership_proofs", "mutations_rejected", "bitflips_rejected"):
         ctx.cov[k] = int(proofs.get(k, 0))
+    ctx.cov["hash_families"] = {k: int(fam.get(k, 0)) for k in ("families", "positions", "cross_comparisons", "min_members")}
     ctx.cov["exhaustive"] = True
     ctx.cov["variants"] = ["memdb / goleveldb", "cache 0 / 1 / 10000", "fast storage off (as the gno stores) / on / toggled at Reopen"]
     ctx.log("replayed %d behaviours, %d steps; %d + %d proofs, %d mutations rejected" % (
